@@ -28,7 +28,7 @@ for n in names:
                          capture_output=True, text=True, env=env).stdout
     viol = [ln for ln in out.splitlines() if ln.startswith('VIOLATION')]
     concrete = [ln for ln in viol if 'no-failing-input-found' not in ln]
-    cov = json.load(open(os.path.join(here, 'evidence', 'C04.json')))['coverage']
+    cov = json.load(open(os.path.join(here, '.work', 'C04.json')))['coverage']   # runs on patched copies write to .work/
     tie = cov.get('source_tie', {})
     info = cov.get('source_tie_info', {})
     kinds = collections.Counter('proved unchanged' if v.startswith('proved') else 're-proved' if v.startswith('re-proved')
